@@ -98,3 +98,33 @@ Proof.
   - intros l H. inversion H. lia.
   - exists k. split; [exact K1|]. exact K2.
 Qed.
+
+(* the premise "the update revision carries no numeric hash label" of the any-history theorems is needed: with numeric
+   labels EqualRevision is not transitive.  web-l (label 5) is the update revision only THROUGH web-e (no parsable
+   label, same template), which nothing refers to; revisionHistoryLimit 0 truncates web-e away in the first round, and
+   the second round finds no revision equal to the template (label 7 expected) and creates one. *)
+Definition nh_hashes : list ((Z * Z) * string) := [((2, 0), "7"%string); ((2, 1), "8"%string)].
+Definition nh_rev (name : string) (n : Z) (h : string) : rev :=
+  {| r_name := name; r_revision := n; r_tmpl := 2; r_owner := Some ex_me; r_match := true; r_marker := None;
+     r_hash := Some h; r_created := 0; r_labels_nil := false |}.
+Definition nh_set : sset :=
+  let s := ex_set 2 None "Parallel" 2 0 (ex_status 2 "web-l" "web-l") in
+  {| s_name := s_name s; s_uid := s_uid s; s_gen := s_gen s; s_deleting := false; s_slots := None; s_pause := None;
+     s_replicas := s_replicas s; s_selector := SelOk; s_policy := s_policy s; s_strategy := s_strategy s; s_rolling := s_rolling s;
+     s_tmpl := 2; s_claims := s_claims s; s_service := s_service s; s_rhl := Some 0; s_status := s_status s; s_rv := s_rv s |}.
+Definition nh_pod (i : Z) : pod :=
+  let p := ex_pod i "web-l" "Running" true in
+  {| p_name := p_name p; p_match := true; p_owner := p_owner p; p_phase := p_phase p; p_ready := true; p_term := false;
+     p_rev := "web-l"; p_namelabel := p_namelabel p; p_vols := p_vols p; p_tmpl := 2 |}.
+Definition nh_w0 := ex_world nh_set [nh_pod 0; nh_pod 1] [nh_rev "web-e" 1 "abc"; nh_rev "web-l" 2 "5"].
+Definition nh_w1 := env_round nh_hashes nh_w0.
+Definition nh_w2 := env_round nh_hashes nh_w1.
+Example nh_premise_needed :
+  (* round 0 resolves web-l as current and update revision, nothing to adopt, its label is numeric *)
+  gsr_value nh_hashes nh_set (sort_revs (lrevs nh_w0 nh_set)) = Some (nh_rev "web-l" 2 "5", nh_rev "web-l" 2 "5", 0)
+  /\ nothing_to_adopt nh_w0 nh_set = true
+  /\ hash_num (nh_rev "web-l" 2 "5") = Some 5
+  (* the first round truncates web-e, the second creates a revision for the unchanged template *)
+  /\ map r_name (w_revs nh_w1) = ["web-l"]%string
+  /\ map r_name (w_revs nh_w2) = ["web-l"; "web-7"]%string.
+Proof. vm_compute. repeat split; reflexivity. Qed.
